@@ -9,7 +9,9 @@ C03-b  decoder contract at every call site: source = base + cursor, cursor passe
 C03-c  non-empty chunk list: every success exit of index_read has passed a guard that rejects an empty list
        (consumers dereference index.first unconditionally).
 C03-d  a division whose divisor is read from the file (zck_get_* result) has a dominating non-zero test.
-C03-e  string-table lookups by a file-supplied code are bounded below and above.
+C03-e  string-table lookups by a file-supplied code are bounded above (codes are non-negative ints, C03-f).
+C03-f  the integer decoder the parsers rely on: bounded reads, no wrap on accepting paths, values above INT_MAX
+       rejected before narrowing (the interval interpretation of C20-a..c, reported here as well).
 Declined: memory safety as a whole, absence of hangs, safety of zstd/OpenSSL.
 """
 from ..flow import M1, NEG, Z, P1, POS, POSITIVE, TOP, NONNEG, mask_str, Engine, Rule
@@ -315,6 +317,9 @@ def run(ctx):
                       'division by %s, a count read from the file that may be 0 (SIGFPE on a header claiming 0 chunks)'
                       % show(n.a[1]), n.file, n.line, config=config)
         ck.min_instances('divisions by file-supplied values in the tools', ndiv, 1)
+        # ---- f  the integer decoder every parser relies on (same analysis as C20-a..c)
+        from . import c20
+        c20.decoder(ck, prog, config, ca='C03-f', cb='C03-f', cc='C03-f', cd='C03-f')
         # ---- e
         for name, table in (('zck_comp_name_from_type', 'COMP_NAME'), ('zck_hash_name_from_type', 'HASH_NAME')):
             fn = prog.need_func(name)
